@@ -217,6 +217,67 @@ def e2e_runs(ctx, idxs):
     return rows
 
 
+def lcase_term(o):
+    z = verif.coq_z
+    return "{| l_rate := %s; l_per := %s; l_mode := %d; l_in := %s; l_obs := %s |}" % (
+        z(o["rate"]), z(o["per"]), o["mode"], verif.coq_list([z(x) for x in o["in"]]),
+        verif.coq_list(["(%s, %s, %s)" % (z(a), z(b), z(c)) for a, b, c in o["obs"]]))
+
+
+def wcase_term(o):
+    z = verif.coq_z
+    ops = []
+    for k, v in o.get("ops") or []:
+        ops.append({0: "WWrite %s" % z(v), 1: "WRead", 2: "WScan %s" % z(v)}[k])
+    return "{| w_ops := %s; w_log := %s |}" % (
+        verif.coq_list(ops), verif.coq_list(["(%s, %s)" % (z(a), z(b)) for a, b in o.get("log") or []]))
+
+
+def case_file(lrows, wrows):
+    body = ["From Coq Require Import ZArith List.", "From SX Require Import Model.Limiter Spec.C15.",
+            "Import ListNotations.", "Open Scope Z_scope.",
+            "Definition lcases : list lcase := [", ";\n".join(lcase_term(o) for o in lrows), "].",
+            "Definition wcases : list wcase := [", ";\n".join(wcase_term(o) for o in wrows), "].",
+            "Definition ML := Eval vm_compute in check_lall lcases.",
+            "Definition MW := Eval vm_compute in check_wall wcases.",
+            "Definition NL := Eval vm_compute in length lcases.",
+            "Definition NW := Eval vm_compute in length wcases.",
+            "Print ML. Print MW. Print NL. Print NW."]
+    return "\n".join(body)
+
+
+def parse_mismatch(ctx, out, name):
+    m = ctx.parse_result(out, name)
+    res = []
+    if m.strip() not in ("[]", "nil"):
+        for idx, codes in re.findall(r"\((\d+), \[([^\]]*)\]\)", m):
+            res.append((int(idx), [int(c.strip().strip("()")) for c in codes.split(";") if c.strip()]))
+        if not res:
+            raise verif.Broken("cannot parse mismatch list", m[:500])
+    return res
+
+
+def key_of(o):
+    if o["kind"] == "lim":
+        return "lim:" + o.get("rate_str", "")
+    if o["kind"] == "e2e":
+        return "e2e:" + o.get("cmd", "")
+    return "%s:%s" % (o["kind"], o.get("class", ""))
+
+
+def report(ctx, o, why, args):
+    small = {k: v for k, v in o.items() if k not in ("obs", "in", "log", "ops", "starts", "ts")}
+    for k in ("obs", "in", "log", "ops", "starts", "ts"):
+        if o.get(k):
+            small[k + "_head"] = o[k][:40]
+            small[k + "_len"] = len(o[k])
+    path = ctx.write_replay("%s-%d-seed%d" % (o["kind"], o["id"], args["seed"]), {
+        "property": "C15", "what": why,
+        "input": {"kind": o["kind"], "id": o["id"], "seed": args["seed"], "k": args["k"], "rate": o.get("rate_str")},
+        "observed": small, "replay_cmd": "bin/check C15 --replay <this file>"})
+    ctx.findings.append({"key": key_of(o), "what": why, "replay": path})
+
+
 def run_harness(ctx, name, seed, n, wrap, pipe, eng, k=120, timeout=600):
     ok, _ = ctx.harness_run("c15", ["-out", name, "-seed", seed, "-n", n, "-wrap", wrap, "-pipe", pipe, "-eng", eng,
                                     "-k", k], timeout=timeout)
